@@ -99,14 +99,31 @@ def _run(prop, tier, seed, n_hist, budget, batch, workers, evidence_path, t0, ev
     for k in range(0, n_hist, batch):
         jobs.append({"prop": prop, "tier": tier, "run_seeds": run_seeds[k:k + batch], "faults": (k // batch) % 3 != 0,
                      "minimise_s": 45 if tier == "quick" else 120})
+    # crash-site sweeps: one target class each, the target op cut at the first and last occurrence of
+    # every distinct source line (thorough: also every single line event of some targets)
+    from .gen import WRITERS
+    readers = ["DFXPReader", "SAMIReader", "SRTReader", "WebVTTReader", "MicroDVDReader", "SCCReader"]
+    primary, secondary = (WRITERS, readers) if prop == "C09" else (readers, WRITERS)
+    sweep_jobs = []
+    if tier == "quick":
+        targets = [(c, "sites", 220) for c in primary] + [(c, "sites", 120) for c in secondary[:2]]
+    else:
+        targets = [(c, "sites", 0) for c in primary for _ in range(12)] + [(c, "sites", 0) for c in secondary for _ in range(3)] \
+            + [(c, "all", 6000) for c in primary for _ in range(2)]
+    for (c, mode, cap) in targets:
+        sweep_jobs.append({"prop": prop, "tier": tier, "run_seed": master.randrange(1 << 48), "target_cls": c, "mode": mode,
+                           "cap": cap, "minimise_s": 45 if tier == "quick" else 120})
+    if os.environ.get("VERIF_NO_SWEEPS"):
+        sweep_jobs = []
     stats = Stats()
+    sweeps = []
     runs, violations, errors, samples, schedules, distinct = [], [], [], [], {}, {}
     deadline = t0 + budget
     ctx = multiprocessing.get_context("fork")
     ex = cf.ProcessPoolExecutor(max_workers=workers, mp_context=ctx)
     stopped_early = False
     try:
-        futs = [ex.submit(runner.run_batch, j) for j in jobs]
+        futs = [ex.submit(runner.run_sweep, j) for j in sweep_jobs] + [ex.submit(runner.run_batch, j) for j in jobs]
         pending = set(futs)
         while pending:
             done, pending = cf.wait(pending, timeout=1.0, return_when=cf.FIRST_COMPLETED)
@@ -118,7 +135,13 @@ def _run(prop, tier, seed, n_hist, budget, batch, workers, evidence_path, t0, ev
                 runs += r["runs"]
                 violations += r["violations"]
                 errors += r["errors"]
-                if len(samples) < 3:
+                if r.get("sweep"):
+                    sweeps.append(r["sweep"])
+                    if sum(1 for x in samples if "sweep_of" in x) < 1:
+                        for x in r["samples"]:
+                            x["sweep_of"] = r["sweep"]
+                            samples.insert(0, x)
+                elif len(samples) < 3:
                     samples += r["samples"]
                 for s in r["schedules"]:
                     schedules[s] = 1
@@ -138,6 +161,8 @@ def _run(prop, tier, seed, n_hist, budget, batch, workers, evidence_path, t0, ev
                         runs += r["runs"]
                         violations += r["violations"]
                         errors += r["errors"]
+                        if r.get("sweep"):
+                            sweeps.append(r["sweep"])
                         stats.merge(r["stats"])
                         for s in r["schedules"]:
                             schedules[s] = 1
@@ -151,7 +176,8 @@ def _run(prop, tier, seed, n_hist, budget, batch, workers, evidence_path, t0, ev
     finally:
         ex.shutdown(wait=False, cancel_futures=True)
         zp.close()
-    runs.sort(key=lambda r: r["run_seed"])
+    runs.sort(key=lambda r: (r["run_seed"], r.get("sweep_ordinal", 0)))
+    sweeps.sort(key=lambda x: x["run_seed"])
     violations.sort(key=lambda v: (v["run_seed"]))
     wall = time.time() - t0
     # ---- classify violations: known findings vs new
@@ -195,6 +221,10 @@ def _run(prop, tier, seed, n_hist, budget, batch, workers, evidence_path, t0, ev
             "samples": samples[:3],
             "exhaustive": False,
             "histories": len(runs), "steps": c.get("steps", 0),
+            "random_histories": sum(1 for r in runs if "sweep_ordinal" not in r),
+            "crash_site_sweeps": {"sweeps": len(sweeps), "crash_points": sum(x["points"] for x in sweeps),
+                                  "distinct_source_lines": sum(x["distinct_sites"] for x in sweeps),
+                                  "per_target": [[x["target"].get("cls"), x["mode"], x["points"], x["line_events"]] for x in sweeps]},
             "judged_ops": {k[7:]: v for k, v in sorted(c.items()) if k.startswith("judged_")},
             "reference_evaluations": c.get("ref_evals", 0), "reference_memo_hits": c.get("ref_memo_hits", 0),
             "distinct_schedules": len(schedules),
@@ -202,7 +232,7 @@ def _run(prop, tier, seed, n_hist, budget, batch, workers, evidence_path, t0, ev
             "fault_detail": {k: v for k, v in sorted(c.items()) if k.startswith(("F2_", "F3_", "reuse_after_", "status_", "op_", "unjudged_"))},
             "precondition_failed": c.get("precondition_failed", 0),
             "runs_per_hour": round(len(runs) / max(wall, 1e-6) * 3600),
-            "seeds": {"master": seed, "first_run_seeds": [r["run_seed"] for r in runs[:5]], "count": len(runs)},
+            "seeds": {"master": seed, "first_run_seeds": sorted({r["run_seed"] for r in runs})[:5], "count": len(runs)},
             "simulated_time": "none: the SUT reads no clock; logical steps = %d" % c.get("steps", 0),
             "hash_seed_pool": hp, "workers": workers, "stopped_early": stopped_early,
             "real_vs_stub": REAL_VS_STUB, "harness_errors": len(errors),
